@@ -272,6 +272,98 @@ func resolveCase(bpath, bquery, ref string) {
 	run.Nontrivial("RR" + bpath + "?" + bquery + " " + ref)
 }
 
+// ---------- json.Decoder: the first value of a stream is self-delimiting ----------
+
+func genJSON(r *common.Rand, depth int, top bool) string {
+	ws := func() string { return common.Pick(r, []string{"", "", "", " ", "\n", "\t ", "  "}) }
+	str := func() string {
+		var sb strings.Builder
+		sb.WriteByte('"')
+		for i := r.Intn(5); i > 0; i-- {
+			sb.WriteString(common.Pick(r, []string{"a", "tag", "{", "}", "[", "]", "\\\"", "\\\\", "\\u00e9", "\\n", " ", ",", ":", "sha256:ab", "ü", "\\/"}))
+		}
+		sb.WriteByte('"')
+		return sb.String()
+	}
+	k := r.Intn(7)
+	if top || (depth > 0 && k < 2) {
+		if r.Bool() {
+			var sb strings.Builder
+			sb.WriteString("{" + ws())
+			for i, n := 0, r.Intn(4); i < n; i++ {
+				if i > 0 {
+					sb.WriteString("," + ws())
+				}
+				sb.WriteString(str() + ws() + ":" + ws() + genJSON(r, depth-1, false) + ws())
+			}
+			return sb.String() + "}"
+		}
+		var sb strings.Builder
+		sb.WriteString("[" + ws())
+		for i, n := 0, r.Intn(4); i < n; i++ {
+			if i > 0 {
+				sb.WriteString("," + ws())
+			}
+			sb.WriteString(genJSON(r, depth-1, false) + ws())
+		}
+		return sb.String() + "]"
+	}
+	switch k {
+	case 2, 3:
+		return str()
+	case 4:
+		return common.Pick(r, []string{"0", "-1", "12.5e3", "7"})
+	}
+	return common.Pick(r, []string{"true", "false", "null"})
+}
+
+func jsonCase(input string, doc string, lead int, complete bool) {
+	id := run.NewID()
+	dec := json.NewDecoder(strings.NewReader(input))
+	var v any
+	err := dec.Decode(&v)
+	obs := "INC"
+	if err == nil {
+		obs = fmt.Sprintf("OK %d", dec.InputOffset())
+	}
+	run.Case(id, "J "+common.Hex(input), obs)
+	run.Count("json_" + obs[:2])
+	rep := map[string]any{"op": "json", "input": input, "doc": doc, "lead": lead, "complete": complete}
+	// oracle: exactly the whole document is a value; what follows it is not touched
+	if complete {
+		var want any
+		if json.Unmarshal([]byte(doc), &want) != nil {
+			return
+		}
+		wj, _ := json.Marshal(want)
+		gj, _ := json.Marshal(v)
+		if err != nil || int(dec.InputOffset()) != lead+len(doc) || string(wj) != string(gj) {
+			run.OracleFail(id, "json-self-delimiting", fmt.Sprintf("document %q followed by more input: Decode = %s, %v at offset %d", doc, gj, err, dec.InputOffset()), rep)
+		}
+	} else if err == nil {
+		run.OracleFail(id, "json-self-delimiting", fmt.Sprintf("proper prefix %q of document %q decoded without error", input, doc), rep)
+	}
+}
+
+func genJSONCases(r *common.Rand) {
+	for i := 0; i < run.Scale(150, 3000); i++ {
+		doc := genJSON(r, 3, true)
+		lead := common.Pick(r, []string{"", "", " ", "\n\t"})
+		jsonCase(lead+doc, doc, len(lead), true)
+		jsonCase(lead+doc+common.Pick(r, []string{" ", "\n", "}", "]", "{\"tags\":[\"zzz\"]}", "x", "\"", " null"}), doc, len(lead), true)
+		full := lead + doc
+		for j := 0; j < 6; j++ {
+			k := r.Intn(len(full))
+			jsonCase(full[:k], doc, len(lead), false)
+		}
+		if len(full) < 40 {
+			for k := 0; k < len(full); k++ {
+				jsonCase(full[:k], doc, len(lead), false)
+			}
+		}
+	}
+}
+
 var refPieces = []string{"http://", "https://", "HTTP://", "//", "/", "./", "../", "..", ".", "?", "&", "=", ";", ":", "a", "b.c", "v2", "list",
 	"%41", "%zz", "reg.test", "reg.test:5000", "other.io", "@", "#", " ", "~p", "x=1", "last=a%2Fb", "n=2", "+", "sha256:ab", "ü", "///", "?"}
 
@@ -663,6 +755,24 @@ func listCase(sc *Scenario) {
 	}
 
 	stringCases(sc, reg.Log, outcome)
+	// the document length the fake declares (model input rs_doc_len) is where the decoder -- and the
+	// bracket scanner of Model/PagingJson.v -- find the end of the first value of the body
+	for _, x := range reg.Log {
+		if x.Status == 200 && x.JSONOK && x.Body != nil && len(x.Body) > 0 && x.Body[x.DocLen-1] == '}' && run.Rand.Chance(1, 8) {
+			jid := run.NewID()
+			dec := json.NewDecoder(bytes.NewReader(x.Body))
+			var v any
+			obs := "INC"
+			if err := dec.Decode(&v); err == nil {
+				obs = fmt.Sprintf("OK %d", dec.InputOffset())
+			}
+			run.Case(jid, "J "+common.Hex(string(x.Body)), obs)
+			run.Count("json_listing_body")
+			if obs != fmt.Sprintf("OK %d", x.DocLen) {
+				run.OracleFail(jid, "fake-registry-illegal", fmt.Sprintf("fake registry declares a document of %d bytes, the decoder says %s", x.DocLen, obs), sc)
+			}
+		}
+	}
 
 	// ----- the oracle -----
 	var expected []fakereg.Item
@@ -2028,6 +2138,9 @@ func replay(cases []map[string]string) {
 			l, _ := strconv.ParseInt(c["limit"], 10, 64)
 			s, _ := strconv.ParseInt(c["size"], 10, 64)
 			sizeCase(l, s)
+		case "json":
+			lead, _ := strconv.Atoi(c["lead"])
+			jsonCase(c["input"], c["doc"], lead, c["complete"] == "true")
 		case "setquery":
 			var kv []string
 			json.Unmarshal([]byte(c["kv"]), &kv)
@@ -2165,6 +2278,8 @@ func main() {
 	}
 	// the string level: net/url resolution, setQueryParams, escaping
 	genStrings(r)
+	// json.Decoder: where the first value ends
+	genJSONCases(r)
 	// pingReferrers
 	for _, st := range []string{"U", "S", "N"} {
 		for _, status := range []int{0, 404, 500, 401, 403} {
@@ -2210,7 +2325,7 @@ func coverageFloors() {
 		return n
 	}
 	floors := map[string]int{
-		"string_loop": 2000, "string_first_request": 1000, "string_next_request_NEXT": 1000, "string_next_request_NONE": 300, "string_next_request_ERR": 10,
+		"json_listing_body": 200, "json_OK": 200, "json_IN": 500, "string_loop": 2000, "string_first_request": 1000, "string_next_request_NEXT": 1000, "string_next_request_NONE": 300, "string_next_request_ERR": 10,
 		"string_set_query": 300, "string_escape": 200, "string_resolve_OK": 200, "string_resolve_ER": 50,
 		"cursor_opaque": 100, "hidden_entries": 100, "list_empty_page_with_link": 20, "link_raw_pairs": 50, "link_other_path": 50, "link_after_redirect": 30, "link_further_values": 100, "link_rel_first_stream": 5,
 		"list_link_missing_midway": 5, "json_shape_variant": 100, "registry_page": 1000, "exhaustive": 200,
